@@ -334,7 +334,7 @@ fn shrink_violations(rep: &mut Report, surface: Surface, seed: u64, thorough: bo
 pub fn run(p: &Params, rep: &mut Report) {
     // exhaustive tiny programs: every construction with at most two nested operators over 10 atoms
     let stride = 1;
-    let pairs = p.size(300, 6000);
+    let pairs = p.size(600, 10000);
     let thorough = p.thorough;
     let mut flip = 0u64;
     for_tiny_programs(p, rep, stride, pairs, |prog, seed, rep| {
@@ -342,7 +342,7 @@ pub fn run(p: &Params, rep: &mut Report) {
         let surface = if flip % 5 == 4 { Surface::Wrap } else { Surface::Mgr };
         check_program(prog, surface, seed, thorough, rep, true);
     });
-    let nprog = p.size(40, 500);
+    let nprog = p.size(150, 1500);
     let mut rng = p.rng(1);
     let weights = [(Profile::Boundary, 25), (Profile::Loops, 25), (Profile::Boolean, 20), (Profile::Patterns, 15), (Profile::Mixed, 15)];
     for i in 0..nprog {
